@@ -2,6 +2,7 @@
 use crate::{Scenario, Tier};
 pub mod c01;
 pub mod c09;
+pub mod c10;
 pub mod c11;
 pub mod c13;
 pub mod c14;
@@ -21,6 +22,7 @@ pub fn all(seed: u64) -> Vec<Scenario> {
     let mut v = vec![];
     v.extend(c01::scenarios(seed));
     v.extend(c09::scenarios(seed));
+    v.extend(c10::scenarios(seed));
     v.extend(c11::scenarios(seed));
     v.extend(c13::scenarios(seed));
     v.extend(c14::scenarios(seed));
